@@ -121,6 +121,15 @@ func (v *parser_) ParseSource(source string) (collection any) {
 
 // Private
 
+func (v *parser_) checkLiteral(token TokenLike, err error) {
+	if err != nil {
+		// The literal matches the syntax but cannot be represented exactly.
+		var message = v.formatError(token)
+		message += "The literal cannot be represented: " + err.Error() + "\n"
+		panic(message)
+	}
+}
+
 func (v *parser_) formatError(token TokenLike) string {
 	// Format the error message.
 	var message = fmt.Sprintf(
@@ -541,27 +550,37 @@ func (v *parser_) parseIntrinsic() (
 ) {
 	_, token, ok = v.parseToken(BooleanToken, "")
 	if ok {
-		intrinsic, _ = stc.ParseBool(token.GetValue())
+		var err error
+		intrinsic, err = stc.ParseBool(token.GetValue())
+		v.checkLiteral(token, err)
 		return intrinsic, token, true
 	}
 	_, token, ok = v.parseToken(ComplexToken, "")
 	if ok {
-		intrinsic, _ = stc.ParseComplex(token.GetValue(), 128)
+		var err error
+		intrinsic, err = stc.ParseComplex(token.GetValue(), 128)
+		v.checkLiteral(token, err)
 		return intrinsic, token, true
 	}
 	_, token, ok = v.parseToken(FloatToken, "")
 	if ok {
-		intrinsic, _ = stc.ParseFloat(token.GetValue(), 64)
+		var err error
+		intrinsic, err = stc.ParseFloat(token.GetValue(), 64)
+		v.checkLiteral(token, err)
 		return intrinsic, token, true
 	}
 	_, token, ok = v.parseToken(HexadecimalToken, "")
 	if ok {
-		intrinsic, _ = stc.ParseUint(token.GetValue()[2:], 16, 64)
+		var err error
+		intrinsic, err = stc.ParseUint(token.GetValue()[2:], 16, 64)
+		v.checkLiteral(token, err)
 		return intrinsic, token, true
 	}
 	_, token, ok = v.parseToken(IntegerToken, "")
 	if ok {
-		intrinsic, _ = stc.ParseInt(token.GetValue(), 10, 64)
+		var err error
+		intrinsic, err = stc.ParseInt(token.GetValue(), 10, 64)
+		v.checkLiteral(token, err)
 		return intrinsic, token, true
 	}
 	_, token, ok = v.parseToken(NilToken, "")
@@ -572,14 +591,17 @@ func (v *parser_) parseIntrinsic() (
 	_, token, ok = v.parseToken(RuneToken, "")
 	if ok {
 		var matches = Scanner().MatchToken(RuneToken, token.GetValue())
-		var match, _ = stc.Unquote(matches.GetValue(1))
+		var match, err = stc.Unquote(matches.GetValue(1))
+		v.checkLiteral(token, err)
 		intrinsic, _ = utf.DecodeRuneInString(match)
 		return intrinsic, token, true
 	}
 	_, token, ok = v.parseToken(StringToken, "")
 	if ok {
 		var matches = Scanner().MatchToken(StringToken, token.GetValue())
-		intrinsic, _ = stc.Unquote(matches.GetValue(1))
+		var err error
+		intrinsic, err = stc.Unquote(matches.GetValue(1))
+		v.checkLiteral(token, err)
 		return intrinsic, token, true
 	}
 
